@@ -215,6 +215,11 @@ inductive Op where
   | targetExit
   /-- the connection is lost / the session closes: everything in flight is gone, the proxy stops -/
   | cut
+  /-- ONLY A's side goes down (its transport reports an error, its session stops): the proxy
+  stops, its pending callers are dropped, nothing more is sent and no reply can arrive any more —
+  but the frames already on their way (writer channel, byte stream, B's reader and mailboxes)
+  still reach B, which has not noticed anything yet (half-open / asymmetric loss) -/
+  | loseA
   deriving Repr
 
 def Frame.ofOut (sender : Nat) (port : Nat) : Out → Option Frame
@@ -275,6 +280,9 @@ def Net.step (n : Net) : Op → Net
   | .targetExit => { n with targetUp := false, handles := [] }
   | .cut =>
     { n with linkUp := false, fwd := n.fwd.clear, back := n.back.clear, mbox := [], handles := [],
+             px := { n.px with pending := [], cursor := none } }
+  | .loseA =>
+    { n with linkUp := false, back := n.back.clear, mbox := [],
              px := { n.px with pending := [], cursor := none } }
 
 def Net.run (n : Net) (ops : List Op) : Net := ops.foldl Net.step n
